@@ -55,7 +55,7 @@ REQUIRED = [
     'batches_compared', 'agg_compared', 'returned_agg_compared', 'twin_compared',
     'strict_cnt_checks', 'shard_union_checks', 'merged_results_compared', 'fanout_runs',
     'shared_iterator_runs', 'worker_threads', 'shim_futures_installed', 'fuse_by_chain_layouts',
-    'two_agg_stage_specs', 'strategy_d_threaded', 'shard_without_source_checks', 'sliced_merged_results_compared',
+    'two_agg_stage_specs', 'strategy_d_threaded', 'shard_without_source_checks', 'shard_of_sharded_source_checks', 'sliced_merged_results_compared',
     'sliced_shards_with_different_key_sets',
 ]
 CHUNK_TIMEOUT_S = {'quick': 300, 'thorough': 3000}
@@ -647,8 +647,46 @@ def check_shard_without_source(ctx, k, n):
   del outs
 
 
+K_OWN_SHARD = 'd:make-shard-ignores-the-shard-of-its-data-source'
+
+
+def check_shard_of_sharded_source(ctx, kind, n, own, k):
+  """The pipeline's data source is itself a shard (own = (i, m)): the k shard runs of
+  make(shard=) partition what that data source covers."""
+  from ml_metrics._src.chainables import io, transform
+  from vlib import c16lib
+  case = {'strategy': 'shard_of_sharded_source', 'kind': kind, 'n': n, 'own': list(own), 'k': k}
+  ctx.count('shard_of_sharded_source_checks')
+  ctx.case(('shard_of_sharded_source', kind, n, tuple(own), k), k >= 2 and n >= 2)
+  recs = [[i] for i in range(n)]
+  base = io.SequenceDataSource(recs) if kind == 'seq' else io.ShardedIterable(recs)
+  ds = base.shard(*own)
+  covered = sorted(map(list, ds))
+  p = transform.TreeTransform.new().data_source(ds).apply(fn=c16lib.op_affine)
+  got = []
+  try:
+    for i in range(k):
+      got.extend(map(list, p.make(shard=io.ShardConfig(i, k)).iterate()))
+  except Exception as e:  # pylint: disable=broad-exception-caught
+    ctx.violation('sharded_run_raised', case, {'error': f'{type(e).__name__}: {e}'[:200]},
+                  mechanism='d:shard-of-sharded-source:raises')
+    return
+  want = sorted(c16lib.op_affine(r) for r in covered)
+  if sorted(got) != want:
+    whole = sorted(c16lib.op_affine(r) for r in recs)
+    ctx.violation('shards_do_not_partition_the_data_source', case,
+                  {'got': sorted(got)[:30], 'want': want[:30],
+                   'equals_whole_underlying_data': sorted(got) == whole},
+                  mechanism=K_OWN_SHARD if sorted(got) == whole else 'd:shard-of-sharded-source:differs')
+
+
 def run_chunk(ctx, spec):
   if spec['mode'] == 'e1':
+    rng0 = random.Random(spec['rseed'] * 7 + spec.get('chunk', 0))
+    for _ in range(4):
+      m = rng0.randint(2, 3)
+      check_shard_of_sharded_source(ctx, rng0.choice(['seq', 'rr']), rng0.randint(2, 12),
+                                    (rng0.randrange(m), m), rng0.randint(1, 3))
     for k in (1, 2, 3):
       check_shard_without_source(ctx, k, 4)
   {'sched': chunk_sched, 'native': chunk_native, 'e1': chunk_e1}[spec['mode']](ctx, spec)
@@ -659,6 +697,9 @@ def run_case(ctx, case):
   spec = case['spec']
   want = w.expected(spec)
   strategy = case['strategy']
+  if strategy == 'shard_of_sharded_source':
+    check_shard_of_sharded_source(ctx, case['kind'], case['n'], tuple(case['own']), case['k'])
+    return
   if strategy == 'shard_without_source':
     check_shard_without_source(ctx, case['k'], case['n'])
     return
